@@ -508,8 +508,9 @@ class LSMTree(Entity):
         )
         self._memtable.set_clock(self._clock)
 
-        # Flush to SSTable
-        sstable = old_memtable.flush()
+        # Flush to SSTable.  The frozen memtable keeps its contents so that it
+        # still serves reads until the SSTable has been installed in L0.
+        sstable = old_memtable.flush(clear=False)
         self._sstable_bytes_written += sstable.size_bytes
 
         # Write latency for creating SSTable on disk
